@@ -1,5 +1,6 @@
 SPECIFICATION Spec
 CONSTANTS
+  RejectIP = TRUE
   Family = "design"
   MaxLen = 4
 INVARIANT DesignHolds
